@@ -78,6 +78,19 @@ CLAIMED["C15"] = (
     "Trusted: Lean kernel; standard axioms; harness; numpy fancy indexing and np.isclose semantics (modelled).",
     "Lean 4 proof over hand-written model + differential correspondence", "DESIGN.md §6 C15")
 
+CLAIMED["C17"] = (
+    "Lean 4 theorem over event traces of any length: along a *guarded* trace (errstate / catch_warnings brackets balanced — Python runs "
+    "__exit__ on every path —, every np.seterr inside an errstate bracket, every filter insertion inside catch_warnings, no "
+    "set_printoptions) the error modes, warnings filters and print options at the end are those at the start, wherever an exception cuts "
+    "the trace; the solver's trace shape is guarded for every number of evaluations and crash position; a witness shows the pre-fix code "
+    "(unbracketed seterr) leaks. Tied to gwcs by trace inclusion: every entry point x every crash position k of a counting user transform "
+    "(plus NoConvergence, invalid arguments, fit failures) is run from a non-default process state with np.seterr/np.errstate/warnings/"
+    "set_printoptions wrapped; the recorded trace must be accepted by the Lean checker and np.geterr()/warnings.filters/printoptions are "
+    "compared before/after.",
+    "Trusted: Lean kernel; standard axioms; harness instrumentation (misses state changes made through captured references; the "
+    "before/after oracle still sees their net effect). Thread races outside the property.",
+    "Lean 4 invariant proof over event traces + trace-inclusion correspondence + before/after oracle", "DESIGN.md §6 C17")
+
 NOT_YET = "check not built yet in this round; will be claimed once its Lean model, theorems and correspondence run green"
 
 
